@@ -781,6 +781,94 @@ class ProgGen:
             passed.append(a)
         return ("call", f["name"], args), passed
 
+    # ---- same name, different variable: a callee writes a captured global through an index
+    #      chain while a caller on the stack owns an unrelated local/parameter of that NAME
+    def lit_of(self, v):
+        if isinstance(v, bool):
+            return ("bool", v)
+        if v is None:
+            return ("null",)
+        if isinstance(v, float):
+            return ("num", str(int(v)) if v == int(v) and abs(v) < 1e15 else repr(v))
+        if isinstance(v, str):
+            return ("str", v)
+        return ("arr", [self.lit_of(x) for x in v])
+
+    def chain_mutation(self, name, val):
+        """a mutation of `name` through an index chain of length >= 1 (assign_index or the
+        index arm of get_mutable_array)"""
+        r = self.r
+        aps = [p for p in self.array_paths(val) if p]
+        k = r.random()
+        if not aps or k < 0.4:
+            p = self.pick_deep(self.elem_paths(val))
+            if p is None:
+                return []
+            self.note("m_setidx_d%d" % min(len(p), 3))
+            return [("setidx", (name, self.idx_exprs(p)), self.scalar_or_arr())]
+        lv = (name, self.idx_exprs(self.pick_deep(aps)))
+        if k < 0.65:
+            return [("push", lv, self.scalar_or_arr())]
+        if k < 0.85:
+            return [("shout", ("pop", lv))] if r.random() < 0.6 else [("popst", lv)]
+        return [("rev", lv)]
+
+    def shadow_call(self):
+        r = self.r
+        cands = [a for a in self.arrays() if self.state[a]]
+        if not cands:
+            return None
+        g = r.choice(cands)
+        vg = self.state[g]
+        callee, caller = self.fresh("f"), self.fresh("f")
+        body = []
+        for _ in range(r.randint(1, 3)):
+            body += self.chain_mutation(g, vg)
+        if not body:
+            return None
+        body += [("shout", ("var", g))]
+        if r.random() < 0.4:
+            body += [("ret", ("var", g))]
+        defs = [("fun", callee, [], body)]
+        # the caller's own, independent array of the same name: same shape (so that a misdirected
+        # write would succeed silently), another variable's value, or any literal
+        others = [a for a in self.small_arrays() if a != g]
+        m = r.random()
+        if m < 0.5 and vsize(vg) <= 80:
+            init = self.lit_of(vg)
+        elif others and m < 0.75:
+            init = ("var", r.choice(others))
+        else:
+            init = self.arr_lit(1)
+        call = r.choice([("expr", ("call", callee, [])), ("shout", ("call", callee, []))])
+        own = self.mutation_unknown(g) if r.random() < 0.5 else []
+        variant = r.choice(["param", "param", "local", "local_block", "rec"])
+        kk = caller + "k"
+        if variant == "param":
+            cdef = ("fun", caller, [g], [("shout", ("var", g)), call, ("shout", ("var", g))] + own
+                    + [("shout", ("var", g)), ("ret", ("var", g))])
+            use = ("call", caller, [init])
+        elif variant == "local":
+            cdef = ("fun", caller, [], [("make", g, init), ("shout", ("var", g)), call, ("shout", ("var", g))] + own
+                    + [("shout", ("var", g)), ("ret", ("var", g))])
+            use = ("call", caller, [])
+        elif variant == "local_block":
+            cdef = ("fun", caller, [], [("block", [("make", g, init), call, ("shout", ("var", g))] + own + [("shout", ("var", g))]),
+                                        call, ("shout", ("var", g)), ("ret", ("var", g))])
+            use = ("call", caller, [])
+        else:
+            cdef = ("fun", caller, [g, kk],
+                    [("if", ("bin", "small pass", ("var", kk), N(1)), [call, ("shout", ("var", g)), ("ret", ("var", g))], None),
+                     ("push", (g, []), ("var", kk)), call, ("shout", ("var", g)),
+                     ("ret", ("call", caller, [("var", g), ("bin", "minus", ("var", kk), N(1))]))])
+            use = ("call", caller, [init, N(r.randint(0, 2))])
+        self.note("shadow_" + variant)
+        if variant == "param" and r.random() < 0.5:
+            self.funcs.append({"name": caller, "params": [g], "need": [0], "kind": "shadow"})
+        d = self.fresh("d")
+        tail = [("make", d, use), ("shout", ("var", d))] if r.random() < 0.5 else [("shout", use)]
+        return defs + [cdef] + tail + self.shout_all((g,))
+
     # ---- one top-level action -> candidate statement list
     def action(self, inner=False):
         r = self.r
@@ -828,6 +916,10 @@ class ProgGen:
             return [("push", (c, []), ("var", a))] + self.shout_all()
         if k < 0.56:
             return self.mutation(a, va) + self.shout_all()
+        if k < 0.74 and not inner and r.random() < 0.3:
+            sc = self.shadow_call()
+            if sc:
+                return sc
         if k < 0.74 and not inner:
             # ---- functions: define and/or call
             if not self.funcs or (len(self.funcs) < 5 and r.random() < 0.45):
@@ -906,6 +998,8 @@ class ProgGen:
                 continue
             ending, st = self.refresh(self.items + cand)
             if ending == "limit" or any(isinstance(v, list) and (vsize(v) > 1500 or vdepth(v) > 9) for v in st.values()):
+                names = {c[1] for c in cand if c[0] == "fun"}
+                self.funcs = [f for f in self.funcs if f["name"] not in names]
                 continue
             if ending != "ok":
                 # mostly drop statements that stop the program; keep a few to exercise the error paths
@@ -913,8 +1007,8 @@ class ProgGen:
                     self.items += cand
                     self.note("ends_with_error")
                     break
-                if cand[0][0] == "fun":
-                    self.funcs = [f for f in self.funcs if f["name"] != cand[0][1]]
+                names = {c[1] for c in cand if c[0] == "fun"}
+                self.funcs = [f for f in self.funcs if f["name"] not in names]
                 continue
             self.items += cand
             self.state = st
@@ -1061,6 +1155,39 @@ class AliasGen(langgen.Gen):
                 "%sshout(to_string([%s[1], %s]))" % (pad, c, a.name), pad + mut,
                 "%sshout(to_string([%s[1], %s]))" % (pad, c, a.name), "%sshout(%s)" % (pad, cl), "%sshout(%s)" % (pad, c)]
 
+    def shadow_probe(self, g):
+        """same name, different variable: a function writes the top-level array `g` through an index
+        chain while its caller owns an independent parameter/local that is also called `g`; the
+        caller's array is the witness (and the global is printed afterwards for the model tie)"""
+        r = self.r
+        self.probe_id += 1
+        k = self.probe_id
+        self.counter += 1
+        callee, caller = "sg%d" % self.counter, "sh%d" % self.counter
+        j = r.randrange(3)
+        mut = r.choice(["%s[%d].push(%s)" % (g, j, self.lit_for(r.choice([langgen.NUM, langgen.STR, langgen.ARR]))),
+                        "%s[%d].reverse()" % (g, j), "%s[%d].pop()" % (g, j),
+                        "%s[%d][0] get %s" % (g, j, self.lit_for(r.choice([langgen.NUM, langgen.STR]))),
+                        "%s[%d] get [%s]" % (g, j, self.lit_for(langgen.STR))])
+        other = '[["p", 1, [2]], [3, 4, [5]], ["q", "%s"]]' % ("y" * r.choice([2, 20, 280]))
+        core = ['shout("@<%d")' % k, "shout(to_string(%s))" % g, "%s()" % callee, "shout(to_string(%s))" % g, 'shout("@>%d")' % k]
+        v = r.random()
+        lines = ["do %s() start" % callee, "  " + mut, "end"]
+        if v < 0.4:
+            lines += ["do %s(%s) start" % (caller, g)] + ["  " + c for c in core] + ["  return %s" % g, "end",
+                                                                                    "shout(%s(%s))" % (caller, other)]
+            self.stat("probe_shadow_param")
+        elif v < 0.7:
+            lines += ["do %s() start" % caller, "  make %s get %s" % (g, other)] + ["  " + c for c in core] + ["  return %s" % g, "end",
+                                                                                                              "shout(%s())" % caller]
+            self.stat("probe_shadow_local")
+        else:
+            lines += ["do %s(%s, k) start" % (caller, g), "  if to say (k small pass 1) start"] + ["    " + c for c in core] + \
+                     ["    return %s" % g, "  end", "  %s.push(k)" % g, "  return %s(%s, k minus 1)" % (caller, g), "end",
+                      "shout(%s(%s, %d))" % (caller, other, r.randint(0, 2))]
+            self.stat("probe_shadow_rec")
+        return lines + ["shout(%s)" % g]
+
     def stmt(self, ind):
         if self.r.random() < 0.22:
             p = self.probe(ind)
@@ -1081,6 +1208,8 @@ class AliasGen(langgen.Gen):
             lines += self.probe(0) or []
         for _ in range(self.r.randint(2, 3)):
             lines += self.probe(0, target=w)
+        for _ in range(self.r.randint(1, 2)):
+            lines += self.shadow_probe(nm)
         for v in self.visible()[:4]:
             if v.ty in (langgen.NUM, langgen.STR, langgen.BOOL, langgen.ARR, langgen.NULL):
                 lines.append("shout(%s)" % v.name)
@@ -1090,8 +1219,14 @@ class AliasGen(langgen.Gen):
 def gen_generic(rng):
     o = langgen.Opts(alias_heavy=True, max_stmts=16, p_fn=0.22, p_loop=0.18, p_trap=0.01, p_unused=0.05, p_dead=0.04,
                      str_long=0.2, p_capture_write=0.0)
+    if rng.random() < 0.3:
+        # heavy name reuse: locals of functions and blocks shadow outer variables of the same name
+        o.name_pool = ["va", "vb", "tab", "row", "arr", "acc"]
+        o.p_shadow = 0.4
     g = AliasGen(rng, o)
     src = g.program()
+    if o.name_pool:
+        g.stat("name_pool_programs")
     return src, g.stats
 
 
@@ -1314,7 +1449,7 @@ def correspond(env, searching=False, model=True):
         src, st = gen_generic(rng)
         gcases.append(("g%d" % i, src))
         for k, v in st.items():
-            if k.startswith("probe") or k in ("array_copy", "push", "pop", "reverse", "index_assign", "nested_index_assign"):
+            if k.startswith("probe") or k in ("name_pool_programs", "array_copy", "push", "pop", "reverse", "index_assign", "nested_index_assign"):
                 gstats[k] = gstats.get(k, 0) + v
     g_accepted = g_probes = g_with_probe = 0
     for release in profiles:
